@@ -160,7 +160,7 @@ static void run(const Case &c, Info &info) {
         VCHECK(after.mastervol == v.value, "master volume message %s: volume is %d, expected %d", mh.c_str(), after.mastervol, v.value);
         Full b2 = before; b2.mastervol = after.mastervol;
         expect_same(b2, after, "master volume message (everything else)");
-        if(info.had_notes) {
+        if(info.had_notes && before.mastervol != after.mastervol) { // (an unchanged volume needs no register write)
             bool tl = false;
             for(size_t i = tap0; i < tap().log.size(); i++) if(tap().log[i].kind != 2 && tap().log[i].reg >= 0x40 && tap().log[i].reg <= 0x4F) tl = true;
             VCHECK(tl, "master volume message %s: no total-level register was rewritten although notes are sounding", mh.c_str());
